@@ -51,16 +51,42 @@ static std::map<char, std::set<const void*>> g_live;
 static std::vector<std::string> g_life_errors;
 static std::vector<std::string> g_callbacks;   // "assign F <handle value>" / "remove F <handle value>"
 
+// per-op counts of the special members that ran (op line `events on`): constructions (default / value / copy),
+// move constructions, (move) assignments, destructions
+struct LifeCount { uint64_t construct = 0, move_construct = 0, move_assign = 0, destroy = 0; };
+static std::map<char, LifeCount> g_life_count;
+static bool g_events_on = false;
+
 static void lifeError(const std::string& s) {
     g_life_errors.push_back(s);
 }
-static void onConstruct(char t, const void* p, const char* how) {
+static void onConstruct(char t, const void* p, const char* how, bool by_move = false) {
     std::lock_guard<std::mutex> l{g_life_mutex};
+    if (by_move) ++g_life_count[t].move_construct; else ++g_life_count[t].construct;
     if (!g_live[t].insert(p).second) lifeError(std::string("construct-over-live ") + t + " via " + how);
 }
 static void onDestroy(char t, const void* p) {
     std::lock_guard<std::mutex> l{g_life_mutex};
+    ++g_life_count[t].destroy;
     if (g_live[t].erase(p) != 1) lifeError(std::string("destroy-of-dead ") + t);
+}
+static void onAssign(char t) {
+    std::lock_guard<std::mutex> l{g_life_mutex};
+    ++g_life_count[t].move_assign;
+}
+static void resetLifeCounts() {
+    std::lock_guard<std::mutex> l{g_life_mutex};
+    g_life_count.clear();
+}
+static std::string evLine() {
+    std::lock_guard<std::mutex> l{g_life_mutex};
+    std::string s = "EV";
+    for (char t : {'B', 'G'}) {
+        const LifeCount& c = g_life_count[t];
+        s += std::string(" ") + t + ":" + std::to_string(c.construct) + "/" + std::to_string(c.move_construct) + "/" +
+             std::to_string(c.move_assign) + "/" + std::to_string(c.destroy);
+    }
+    return s + "\n";
 }
 static void onUse(char t, const void* p, const char* how) {
     std::lock_guard<std::mutex> l{g_life_mutex};
@@ -79,13 +105,13 @@ struct Heap {                                                  // non-trivial, o
     Heap() : p{new uint64_t{kDefaultTok(L)}} { onConstruct(L, this, "default-ctor"); }
     explicit Heap(uint64_t t) : p{new uint64_t{t}} { onConstruct(L, this, "value-ctor"); }
     Heap(const Heap& o) : p{new uint64_t{*o.p}} { onUse(L, &o, "copy-ctor source"); onConstruct(L, this, "copy-ctor"); }
-    Heap(Heap&& o) noexcept : p{o.p} { onUse(L, &o, "move-ctor source"); o.p = nullptr; onConstruct(L, this, "move-ctor"); }
+    Heap(Heap&& o) noexcept : p{o.p} { onUse(L, &o, "move-ctor source"); o.p = nullptr; onConstruct(L, this, "move-ctor", true); }
     Heap& operator=(const Heap& o) {
-        onUse(L, this, "copy-assign dest"); onUse(L, &o, "copy-assign source");
+        onUse(L, this, "copy-assign dest"); onUse(L, &o, "copy-assign source"); onAssign(L);
         if (this != &o) { delete p; p = o.p ? new uint64_t{*o.p} : nullptr; } return *this;
     }
     Heap& operator=(Heap&& o) noexcept {
-        onUse(L, this, "move-assign dest"); onUse(L, &o, "move-assign source");
+        onUse(L, this, "move-assign dest"); onUse(L, &o, "move-assign source"); onAssign(L);
         if (this != &o) { delete p; p = o.p; o.p = nullptr; } return *this;
     }
     ~Heap() { onDestroy(L, this); delete p; }
@@ -126,6 +152,11 @@ struct T : public TSharedComponentTag<T> {
     T() = default; explicit T(uint64_t x) : v{x} {}
     bool operator==(const T& o) const noexcept { return v == o.v; }
 };
+struct U : public TSharedComponentTag<U> {
+    uint64_t v = 0;
+    U() = default; explicit U(uint64_t x) : v{x} {}
+    bool operator==(const U& o) const noexcept { return v == o.v; }
+};
 
 template <typename X> struct Tag { using type = X; };
 
@@ -148,6 +179,7 @@ static bool withShared(char c, Fn&& fn) {
     switch (c) {
         case 'S': fn(Tag<S>{}); return true;
         case 'T': fn(Tag<T>{}); return true;
+        case 'U': fn(Tag<U>{}); return true;
         default: return false;
     }
 }
@@ -567,7 +599,7 @@ struct Driver {
             if (first) out << "-";
             out << " shared=";
             first = true;
-            for (char c : {'S', 'T'}) {
+            for (char c : {'S', 'T', 'U'}) {
                 withShared(c, [&](auto t) {
                     using X = typename decltype(t)::type;
                     if (m.hasComponent<X>(e)) {
@@ -592,7 +624,7 @@ struct Driver {
             if (first) out << "-";
             out << " shared=";
             first = true;
-            for (char c : {'S', 'T'}) {
+            for (char c : {'S', 'T', 'U'}) {
                 if (arch.hasComponent(sharedId(c))) {
                     if (!first) out << ","; first = false;
                     auto idx = arch.sharedComponentIndex(sharedId(c));
@@ -686,16 +718,21 @@ struct Driver {
         if (w[0] == "worldid") { world_id = static_cast<uint32_t>(std::stoul(w[1])); out << "ok\n"; return; }
         if (w[0] == "defaultctx") { use_default_ctx = true; out << "ok\n"; return; }
         if (w[0] == "storagecap") { mustache::verif::storage_chunk_capacity = static_cast<uint32_t>(std::stoul(w[1])); out << "ok\n"; return; }
+        if (w[0] == "events") { g_events_on = (w.size() > 1 && w[1] == "on"); out << "ok\n"; return; }
         if (w[0] == "dump") { dump(); return; }
         if (w[0] == "parjob") { parjob(w); return; }
         if (w[0] == "teardown") {
             if (agents.running) agents.stop(*dispatcher);
+            resetLifeCounts();
             world.reset();
-            std::lock_guard<std::mutex> l{g_life_mutex};
-            out << "teardown live B=" << g_live['B'].size() << " G=" << g_live['G'].size();
-            for (auto& e : g_life_errors) out << " LIFECYCLE-ERROR[" << e << "]";
-            g_life_errors.clear();
-            out << "\n";
+            {
+                std::lock_guard<std::mutex> l{g_life_mutex};
+                out << "teardown live B=" << g_live['B'].size() << " G=" << g_live['G'].size();
+                for (auto& e : g_life_errors) out << " LIFECYCLE-ERROR[" << e << "]";
+                g_life_errors.clear();
+                out << "\n";
+            }
+            if (g_events_on) out << evLine();
             return;
         }
         int tid = 0;
@@ -705,6 +742,7 @@ struct Driver {
             if (w.empty()) { out << "bad-op\n"; return; }
         }
         std::string r;
+        resetLifeCounts();
         if (tid == 0) {
             r = exec(w);
         } else {
@@ -714,13 +752,14 @@ struct Driver {
             agents.runOn(tid, [&] { r = exec(w); });
         }
         out << r << drainSide() << "\n";
+        if (g_events_on) out << evLine();
     }
 };
 
 int main() {
     // fix the component ids: registration order
     for (const char* c = kLetters; *c; ++c) compId(*c);
-    sharedId('S'); sharedId('T');
+    sharedId('S'); sharedId('T'); sharedId('U');
     Driver d;
     std::string l;
     while (std::getline(std::cin, l)) {
